@@ -59,7 +59,7 @@ def main():
 
     try:
         source = SourceCode.from_file(args.input)
-    except OSError as err:
+    except (OSError, UnicodeDecodeError) as err:
         hidc.error(str(err))
         return 1
 
